@@ -2,7 +2,6 @@
    (any from_str, any finish hook): these are statements about all programs a user can plug in. *)
 Load "coq/props/Hdr".
 From PM Require Import C14 Assemble Exec More.
-Lemma src_rt : rt_ok cfg. Proof. prove_rt. Qed.
 Lemma src_cfg_ok : cfg_ok cfg. Proof. sc. Qed.
 Theorem C14_log_erases : forall (T E : Type) (sh : shape T E) s, snd (parse_w cfg sh s) = parse cfg sh s.
 Proof. intros T E sh. apply C14_erase. Qed.
@@ -48,7 +47,7 @@ Print Assumptions C14_fields_as_hook_left_them.
 (* empty-valued qualifiers removed, checksum canonicalised, for any sane hook *)
 Theorem C14_post_hook_invariant : forall (T E : Type) (sh : shape T E) t p t' p', hook_sane cfg sh -> Quals.QInv cfg (p_quals p) -> vals_utf8 (p_quals p) ->
   build cfg sh t p = Ok (t', p') -> Inv cfg p'.
-Proof. intros T E sh t p t' p'. apply (C04_build cfg src_rt); sc. Qed.
+Proof. intros T E sh t p t' p'. apply (C04_build cfg); sc. Qed.
 Print Assumptions C14_post_hook_invariant.
 (* every member of the family of user-written shapes used by the correspondence check satisfies the hypothesis of the invariant theorem *)
 Theorem C14_family_members_are_sane : forall c r hks, hook_sane cfg (fam_shape cfg c r hks).
